@@ -218,8 +218,11 @@ func (c04) Exec(c *sim.Case, env *Env) []sim.Violation {
 		// header/footer parts of the opened package that serve a kind no applied edit named (and their own relationship parts): an edit
 		// of another kind must leave them alone, also when the library's part name for the edited kind happens to be theirs
 		protectedHF := map[string]bool{}
+		stillServes := hfPartsByKind(got)
 		for key, part := range hfPartsByKind(base) {
-			if !kinds[ds.Slot][key] {
+			// (only while the saved document still says that this part serves that kind: when an edit removed the section settings
+			// together with the reference, nobody shows the part any more and its name is free to be used again)
+			if !kinds[ds.Slot][key] && stillServes[key] == part {
 				protectedHF[part] = true
 				protectedHF[inspect.RelsPartFor(part)] = true
 			}
